@@ -415,7 +415,18 @@ func ruleAdmit(p *Program, r *Result) {
 						}
 					}
 					if direct < 2 {
-						cl = p.viewKeeping(cl, isFilterMethod)
+						// the filters' tests and the provider scan stay calls: they are units of this rule
+						cl = p.viewKeeping(cl, func(f *ssa.Function) bool {
+							if isFilterMethod(f) {
+								return true
+							}
+							for _, pr := range f.Params {
+								if isProviderSlice(pr.Type()) {
+									return true
+								}
+							}
+							return false
+						})
 					}
 				}
 				// which closure parameters are filters, and from which config field do they come?
@@ -640,19 +651,29 @@ func ruleProviderScan(p *Program, r *Result, fn *ssa.Function) {
 	miss := false
 	for _, b := range fn.Blocks {
 		ret, ok := b.Instrs[len(b.Instrs)-1].(*ssa.Return)
-		if !ok || len(ret.Results) != 3 {
+		if !ok || b == fn.Recover {
 			continue
 		}
-		c0, i0, ok0 := extractOf(ret.Results[0])
-		c1, i1, ok1 := extractOf(ret.Results[1])
+		res := ret.Results
+		if len(res) == 1 {
+			// the three answers bundled in one struct value (secret, handler, error)
+			if three, ok := scanAnswerOf(res[0]); ok {
+				res = three
+			}
+		}
+		if len(res) != 3 {
+			continue
+		}
+		c0, i0, ok0 := extractOf(res[0])
+		c1, i1, ok1 := extractOf(res[1])
 		if ok0 && ok1 && c0 == get && c1 == get && i0 == 0 && i1 == 1 {
 			g, _ := guardedBySuccess(get, ret, map[*ssa.BasicBlock]bool{get.Block(): true})
-			if g && nonNilGuarded(ret.Results[0], ret) && nonNilGuarded(ret.Results[1], ret) {
+			if g && nonNilGuarded(res[0], ret) && nonNilGuarded(res[1], ret) {
 				hit = true
 			}
 			continue
 		}
-		if isNilConst(ret.Results[0]) && isNilConst(ret.Results[1]) && !isNilConst(ret.Results[2]) {
+		if isNilConst(res[0]) && isNilConst(res[1]) && !isNilConst(res[2]) {
 			miss = true
 		}
 	}
@@ -748,7 +769,16 @@ func ruleBuildScopes(p *Program, r *Result) {
 	var build *ssa.Function
 	for f := range bp {
 		if isProviderSlice(resultType(f, 0)) && f.Pkg != nil && f.Pkg.Pkg.Path() == loaderPkg && len(f.Params) >= 2 {
-			build = f
+			// the function that builds the list itself (appends to it), not a wrapper handing its result on
+			builds := false
+			for _, c := range allCalls(p.view(f)) {
+				if bi, ok := c.Common().Value.(*ssa.Builtin); ok && bi.Name() == "append" && isProviderSlice(c.Common().Args[0].Type()) {
+					builds = true
+				}
+			}
+			if builds && (build == nil || f.String() < build.String()) {
+				build = f
+			}
 		}
 	}
 	if build == nil {
@@ -1066,4 +1096,49 @@ func reachesContains(f *ssa.Function, depth int) bool {
 		}
 	}
 	return false
+}
+
+// scanAnswerOf: v is a struct value built right here whose fields carry the scan's answer: a []byte (secret), a
+// tacquito.Handler and an error. Returns them in that order; a field that is not set is its zero value (nil).
+func scanAnswerOf(v ssa.Value) ([]ssa.Value, bool) {
+	u, ok := v.(*ssa.UnOp)
+	if !ok || u.Op != token.MUL {
+		return nil, false
+	}
+	al, ok := u.X.(*ssa.Alloc)
+	if !ok {
+		return nil, false
+	}
+	st, ok := al.Type().(*types.Pointer).Elem().Underlying().(*types.Struct)
+	if !ok {
+		return nil, false
+	}
+	idx := [3]int{-1, -1, -1}
+	for i := 0; i < st.NumFields(); i++ {
+		t := st.Field(i).Type()
+		switch {
+		case isByteSlice(t) && idx[0] < 0:
+			idx[0] = i
+		case typeIs(t, modPath, "Handler") && idx[1] < 0:
+			idx[1] = i
+		case isErrorType(t) && idx[2] < 0:
+			idx[2] = i
+		}
+	}
+	if idx[0] < 0 || idx[1] < 0 || idx[2] < 0 {
+		return nil, false
+	}
+	out := make([]ssa.Value, 3)
+	for k, fi := range idx {
+		sts := fieldStoresOf(al, fi)
+		switch len(sts) {
+		case 0:
+			out[k] = ssa.NewConst(nil, st.Field(fi).Type())
+		case 1:
+			out[k] = sts[0].Val
+		default:
+			return nil, false
+		}
+	}
+	return out, true
 }
